@@ -50,6 +50,13 @@ def impl(d):
     return show(got[0]) if len(got) == 1 else "delivered %d devices" % len(got)
 
 
+def thread_call(hexd):
+    got = []
+    try: _parse_device_from_datagram(got.append, bytes.fromhex(hexd))
+    except Exception: return "raised"
+    return show(got[0]) if len(got) == 1 else "delivered %d devices" % len(got)
+
+
 ID_POOL = [b"\xaa\xaa\xaa", b"\x00\x00\x01", b"\x12\x34\x56"]
 def rand_name(rnd, nbytes=None):
     alph = rnd.choice(NAME_CHARS); s = b""
@@ -191,6 +198,9 @@ def run(tier, rnd, out):
         if "ports" in kw: world.release_well_known_ports()
         lib.differential(out, label, cs, io, None, [e for _, e in enc], describe, sample=lambda c: describe(c)[:300], classify=lambda c, i: label)
     # nobody but the bridge holds the callback's owner (shared with C07), and a second bridge object is started on the port of a running one
+    cs = [mk_case(rnd, rand_desc(rnd, ty)) for ty in TYPES]; enc = encode(cs)          # several threads, each decoding the broadcasts of its own devices
+    world.run_threads(out, "several-threads-each-decoding-its-own-broadcasts", "props.c05", "thread_call", [[d.hex()] for d, _ in enc], [e for _, e in enc],
+                      lambda c: "broadcast %s.." % (c[0][:40] if c else "?"), startups=16 if tier == "quick" else 300, threads=4, rounds=60 if tier == "quick" else 300)
     from props import c07
     c07.run_unreferenced(out, rnd, 4 if tier == "quick" else 40)
     c07.run_with_a_port_taken(out, rnd, 5 if tier == "quick" else 40)          # ... and another program holds one of the configured ports at start (also C07's)
@@ -230,6 +240,9 @@ def run(tier, rnd, out):
 
 def replay(rp, out):
     c = rp["input"]
+    if "threads" in rp.get("stream", ""):
+        import random
+        return run("quick", random.Random(int(rp.get("seed", 1))), out)
     if "datagram" in c:
         d = bytes.fromhex(c["datagram"])
         lib.differential(out, "replay", [c], [impl(d)], lib.run_model([lib.req("bcast", d)]), None, lambda c: "capture")
